@@ -260,3 +260,25 @@ PROPS["C03"] = {
          "preempts": {"quick": 1, "thorough": 2}, "params": {"quick": {"K": 8, "protoMax": 1, "protoFixed": 1}, "thorough": {"K": 12, "protoMax": 1, "protoFixed": 1}}},
     ],
 }
+
+PROPS["C02"] = {
+    "files": ["region/fakes.go", "region/c02_correlation.go"],
+    "claim": "CALLS single gets/puts sent on one connection and answered in every order, each response with 0..CELLS cells tagged "
+             "with its request: every caller receives exactly the response and cells produced for its request. CALLS calls grouped into "
+             "one multi-request over two regions (every grouping), answered with region results in request order, results inside a "
+             "region in every order, any action as an exception, any region as a region exception, cells in the trailing cellblock in "
+             "response order: each call receives the result carrying its index and exactly its cells. Concurrent registration yields "
+             "distinct call ids under every interleaving.",
+    "outside": "more than CALLS calls; non-conforming responses (C11); flush timing of the batching goroutine (grouping is quantified "
+               "directly); true parallel memory effects",
+    "assumptions": ["responses are handled one at a time by the single reader goroutine",
+                    "proto.Unmarshal is stubbed by the decoding seam; native replay decodes the hand-encoded frames with protobuf-go"],
+    "jobs": [
+        {"name": "callid_correlation", "pkg": "region", "entry": "VerifCallIDCorrelation", "stubs": RECV_STUBS, "reach": ["correlated"],
+         "params": {"quick": {"CALLS": 2, "CELLS": 1, "protoMax": 1, "protoFixed": 1}, "thorough": {"CALLS": 3, "CELLS": 2, "protoMax": 1, "protoFixed": 1}}},
+        {"name": "multi_correlation", "pkg": "region", "entry": "VerifMultiCorrelation", "stubs": RECV_STUBS, "reach": ["correlated"], "native_retries": 10,
+         "params": {"quick": {"CALLS": 2, "CELLS": 1, "protoMax": 1, "protoFixed": 1}, "thorough": {"CALLS": 3, "CELLS": 2, "protoMax": 1, "protoFixed": 1}}},
+        {"name": "concurrent_register", "pkg": "region", "entry": "VerifConcurrentRegister", "reach": ["registered"],
+         "preempts": {"quick": 2, "thorough": 3}, "params": {"quick": {}, "thorough": {}}},
+    ],
+}
